@@ -12,6 +12,7 @@ import (
 	"sort"
 	"strings"
 	"sync"
+	"syscall"
 	"time"
 
 	"github.com/relex/fluentlib/protocol/forwardprotocol"
@@ -85,6 +86,8 @@ type Scenario struct {
 	MetricKeys   []string  `json:"metric_keys"`
 	InterFlushMs int       `json:"inter_flush_ms,omitempty"` // overrides the scaled IntermediateFlushInterval (0 = default)
 	ExtraConfig  string    `json:"-"`
+	// ProcessLevel: every generation is its own OS process running run.Run, stopped with SIGTERM (procagent.go)
+	ProcessLevel bool `json:"process_level,omitempty"`
 }
 
 // ---------- observation ----------
@@ -132,7 +135,9 @@ type GenObs struct {
 	ClientEOF map[int]bool // connection id -> the agent closed it after reading everything (clean)
 	ClientErr map[int]string
 	UpEvents  map[string][]string
-	AgentLog  []string // what the agent itself logged at error level during this generation (capped)
+	AgentLog  []string  // what the agent itself logged at error level during this generation (capped)
+	ProcExit  *ProcExit // process-level generations: how the process ended
+	StuckDump string    // process-level generations: goroutine dump taken with SIGQUIT when the stop overran the watchdog
 }
 
 // logCapture collects the agent's own error-level log lines: a scaled-down product timeout that expires on a starved
@@ -402,6 +407,8 @@ type Agent struct {
 	Root     string   // scenario directory
 	UpAddrs  []string // upstream addresses by output
 	stopIn   func()
+	proc     *procAgent // non-nil: this generation is its own OS process running run.Run (see procagent.go)
+	Exit     ProcExit   // how the process ended (process-level only)
 }
 
 // StartAgent loads the config and launches orchestrator and inputs exactly as run.Run does.
@@ -431,6 +438,11 @@ func StartAgent(cfgPath string, reloadable bool) (*Agent, error) {
 
 // Stop is the graceful stop of run.Run: shutdownInputs(); orchestrator.Shutdown(). Returns (inputs, total) durations.
 func (a *Agent) Stop() (time.Duration, time.Duration) {
+	if a.proc != nil {
+		d, pe := a.proc.stop()
+		a.Exit = pe
+		return 0, d
+	}
 	t0 := time.Now()
 	a.stopIn()
 	t1 := time.Now()
@@ -440,6 +452,16 @@ func (a *Agent) Stop() (time.Duration, time.Duration) {
 
 // GatherMetrics reads the loader's gatherer.
 func (a *Agent) GatherMetrics() []vkit.Metric {
+	if a.proc != nil {
+		a.proc.mu.Lock()
+		addr := a.proc.metrics
+		a.proc.mu.Unlock()
+		if addr == "" {
+			return nil
+		}
+		ms, _ := vkit.Scrape("http://" + addr + "/metrics") // nil once the process has exited
+		return ms
+	}
 	if a.Reloader != nil {
 		return vkit.Gather(a.Reloader.GetMetricGatherer())
 	}
@@ -630,6 +652,9 @@ type Hooks struct {
 	BeforeStop func(gen int, a *Agent, ups []*upstream.Server) // right before the stop request
 	Watchdog   time.Duration
 	OnStuck    func(gen int, where string)
+	// ProcessLevel runs every generation as its own OS process through run.Run, stopped with SIGTERM (see procagent.go).
+	// Metrics of a generation are then the last scrape of the agent's own metric listener before the stop request.
+	ProcessLevel bool
 }
 
 // SafetyExpired returns the agent's own reports that one of its safety timeouts expired during the run. After that the
@@ -737,7 +762,13 @@ func Run(sc Scenario, work string, hk Hooks) (*Obs, error) {
 				u.SetScript(nil)
 			}
 		}
-		a, err := StartAgent(cfgPath, hk.Reloadable)
+		var a *Agent
+		var err error
+		if hk.ProcessLevel || sc.ProcessLevel {
+			a, err = startProcAgent(cfgPath, hk.Reloadable, sc, t)
+		} else {
+			a, err = StartAgent(cfgPath, hk.Reloadable)
+		}
 		if err != nil {
 			return nil, fmt.Errorf("gen %d: %w", gi, err)
 		}
@@ -824,6 +855,10 @@ func Run(sc Scenario, work string, hk Hooks) (*Obs, error) {
 			hk.BeforeStop(gi, a, ups)
 		}
 		// the graceful stop, under a watchdog
+		var lastScrape []vkit.Metric
+		if a.proc != nil {
+			lastScrape = a.GatherMetrics()
+		}
 		close(stoppingCh)
 		done := make(chan struct{})
 		go func() {
@@ -837,6 +872,19 @@ func Run(sc Scenario, work string, hk Hooks) (*Obs, error) {
 		select {
 		case <-done:
 		case <-time.After(wd):
+			if a.proc != nil {
+				// the dump comes from the agent process itself
+				a.proc.kill(syscall.SIGQUIT)
+				select {
+				case <-done:
+				case <-time.After(10 * time.Second):
+					a.proc.kill(syscall.SIGKILL)
+					<-done
+				}
+				gobs.StuckDump = strings.Join(a.proc.allLines(), "\n")
+				gobs.ProcExit = &a.Exit
+				obs.Gens = append(obs.Gens, gobs)
+			}
 			if hk.OnStuck != nil {
 				hk.OnStuck(gi, "graceful stop")
 			}
@@ -863,12 +911,21 @@ func Run(sc Scenario, work string, hk Hooks) (*Obs, error) {
 				gobs.ClientErr[cs.ID] = r.err
 			}
 		}
-		gobs.Metrics = a.GatherMetrics()
+		if a.proc != nil {
+			gobs.Metrics = lastScrape
+			pe := a.Exit
+			gobs.ProcExit = &pe
+		} else {
+			gobs.Metrics = a.GatherMetrics()
+		}
 		gobs.Disk, gobs.DiskFiles, gobs.DiskBad = scanDisk(root, sc.Outputs, gi)
 		for _, u := range ups {
 			gobs.UpEvents[u.Name] = u.Events()
 		}
 		gobs.AgentLog = lc.take()
+		if a.proc != nil {
+			gobs.AgentLog = a.proc.takeErrLines()
+		}
 		obs.Gens = append(obs.Gens, gobs)
 	}
 	for _, u := range ups {
